@@ -3,6 +3,7 @@ pub mod c05;
 pub mod c08;
 pub mod c09;
 pub mod c10;
+pub mod c11;
 
 use crate::Ctx;
 
@@ -13,6 +14,7 @@ pub fn run(ctx: &Ctx) -> i32 {
         "C08" => c08::run(ctx),
         "C09" => c09::run(ctx),
         "C10" => c10::run(ctx),
+        "C11" => c11::run(ctx),
         other => {
             eprintln!("MACHINERY-ERROR unknown property {}", other);
             2
@@ -27,6 +29,7 @@ pub fn replay(id: &str, payload: &serde_json::Value) -> bool {
         "C08" => c08::replay(payload),
         "C09" => c09::replay(payload),
         "C10" => c10::replay(payload),
+        "C11" => c11::replay(payload),
         other => {
             eprintln!("MACHINERY-ERROR no replay for {}", other);
             std::process::exit(2)
